@@ -1172,6 +1172,13 @@ package zygo
 //@ C17 assert stores-what-it-checked @before call Cons[*]: arg0 == nkey(entry(key)) && arg1 == entry(val)
 //@ C17 ensures only-declared: r0 == nil && typedRecord(hash) ==> declaredField(hash, old(nkey(key)))
 
+// C14: the key-order list and the bucket map are the hash's own bookkeeping: only the
+// operations below write them, and no other function lets the backing array of the
+// order list out (a slice of it, the slice itself stored, returned, boxed, appended to
+// or handed to a call): a value built from a hash stays what it was whatever is done
+// to the hash afterwards, and writing to it does nothing to the hash
+//@ writers C14 SexpHash | Map, KeyOrder, NumKeys | (*SexpHash).HashSet, (*SexpHash).HashDelete, (*SexpHash).removeFromKeyOrder, MakeHash, SetHashKeyOrder, (*SexpHash).CloneFrom
+
 // the write funnel: the bucket map and the key-order list of a hash are written only here
 //@ writers C17 SexpHash | Map, KeyOrder, NumKeys | (*SexpHash).HashSet, (*SexpHash).HashDelete, (*SexpHash).removeFromKeyOrder, MakeHash, SetHashKeyOrder, (*SexpHash).CloneFrom
 
